@@ -51,44 +51,44 @@ type Cmd struct {
 
 // Event is one observation; fields are omitted when not applicable.
 type Event struct {
-	Ev       string  `json:"ev"`
-	Cid      int     `json:"cid"`
-	M        int     `json:"m"`
-	API      string  `json:"api,omitempty"`
-	Res      string  `json:"res"`
-	Msg      string  `json:"msg,omitempty"`
-	N        *int    `json:"n,omitempty"`
-	Out      []int   `json:"out,omitempty"`
-	HasOut   bool    `json:"hasout,omitempty"`
-	Ret      *int    `json:"ret,omitempty"`
-	Prior    *int    `json:"prior,omitempty"`
-	Slack    *int    `json:"slack,omitempty"`
-	TailOK   *bool   `json:"tail_ok,omitempty"`
-	Writes   *int    `json:"writes,omitempty"`
+	Ev       string   `json:"ev"`
+	Cid      int      `json:"cid"`
+	M        int      `json:"m"`
+	API      string   `json:"api,omitempty"`
+	Res      string   `json:"res"`
+	Msg      string   `json:"msg,omitempty"`
+	N        *int     `json:"n,omitempty"`
+	Out      []int    `json:"out,omitempty"`
+	HasOut   bool     `json:"hasout,omitempty"`
+	Ret      *int     `json:"ret,omitempty"`
+	Prior    *int     `json:"prior,omitempty"`
+	Slack    *int     `json:"slack,omitempty"`
+	TailOK   *bool    `json:"tail_ok,omitempty"`
+	Writes   *int     `json:"writes,omitempty"`
 	Srcs     []string `json:"srcs,omitempty"`
-	In       []int   `json:"in,omitempty"`
-	HasIn    bool    `json:"hasin,omitempty"`
-	Val      Val     `json:"val,omitempty"`
-	HasVal   bool    `json:"hasval,omitempty"`
-	Consumed *int    `json:"consumed,omitempty"`
-	Big      bool    `json:"big"`
-	Alloc    uint64  `json:"alloc,omitempty"`
-	K        *int    `json:"k,omitempty"`
-	Kind     string  `json:"kind,omitempty"`
-	Style    string  `json:"style,omitempty"`
-	Sched    *int    `json:"sched,omitempty"`
-	Rec      *int    `json:"rec,omitempty"`
-	Overask  bool    `json:"overask"`
-	Written  []int   `json:"written,omitempty"`
-	Idx      *int    `json:"idx,omitempty"`
-	Outs     [][]int `json:"outs,omitempty"`
-	Ends     []int   `json:"ends,omitempty"`
-	Req      *int    `json:"req,omitempty"`
-	Got      *int    `json:"got,omitempty"`
+	In       []int    `json:"in,omitempty"`
+	HasIn    bool     `json:"hasin,omitempty"`
+	Val      Val      `json:"val,omitempty"`
+	HasVal   bool     `json:"hasval,omitempty"`
+	Consumed *int     `json:"consumed,omitempty"`
+	Big      bool     `json:"big"`
+	Alloc    uint64   `json:"alloc,omitempty"`
+	K        *int     `json:"k,omitempty"`
+	Kind     string   `json:"kind,omitempty"`
+	Style    string   `json:"style,omitempty"`
+	Sched    *int     `json:"sched,omitempty"`
+	Rec      *int     `json:"rec,omitempty"`
+	Overask  bool     `json:"overask"`
+	Written  []int    `json:"written,omitempty"`
+	Idx      *int     `json:"idx,omitempty"`
+	Outs     [][]int  `json:"outs,omitempty"`
+	Ends     []int    `json:"ends,omitempty"`
+	Req      *int     `json:"req,omitempty"`
+	Got      *int     `json:"got,omitempty"`
 }
 
-func ip(i int) *int    { return &i }
-func bp(b bool) *bool  { return &b }
+func ip(i int) *int   { return &i }
+func bp(b bool) *bool { return &b }
 func ints(b []byte) []int {
 	out := make([]int, len(b))
 	for i, x := range b {
